@@ -289,10 +289,8 @@ class ThreadPool(object):
         # Thread count
         self._thread_id = 0
 
-        # Current number of threads, active and alive,
-        # and number of task waiting
+        # Current number of threads alive and number of task waiting
         self.__nb_threads = 0
-        self.__nb_active_threads = 0
         self.__nb_pending_task = 0
 
     def start(self):
@@ -443,17 +441,17 @@ class ThreadPool(object):
         :param timeout: Maximum time to wait (in seconds)
         :return: True if the queue has been emptied, else False
         """
-        if self._queue.empty():
-            # Nothing to wait for...
-            return True
-        elif timeout is None:
+        if timeout is None:
             # Use the original join
             self._queue.join()
             return True
         else:
             # Wait for the condition
             with self._queue.all_tasks_done:
-                self._queue.all_tasks_done.wait(timeout)
+                if self._queue.unfinished_tasks:
+                    # An empty queue is not enough: the tasks taken by the
+                    # working threads must be finished too
+                    self._queue.all_tasks_done.wait(timeout)
                 return not bool(self._queue.unfinished_tasks)
 
     def __run(self):
@@ -474,9 +472,9 @@ class ThreadPool(object):
                     # Nothing to do yet
                     pass
                 else:
-                    with self.__lock:
-                        self.__nb_active_threads += 1
                     # Extract elements
+                    # (the pool lock must not be needed between get() and
+                    # task_done(): clear() holds it while joining the queue)
                     method, args, kwargs, future = task
                     try:
                         # Call the method
@@ -489,10 +487,9 @@ class ThreadPool(object):
                         # Mark the action as executed
                         self._queue.task_done()
 
-                        # Thread is not active anymore
+                        # Task is not pending anymore
                         with self.__lock:
                             self.__nb_pending_task -= 1
-                            self.__nb_active_threads -= 1
 
                 # Clean up thread if necessary
                 with self.__lock:
